@@ -191,7 +191,7 @@ FUNCS = ['model.Model.change_point', 'model.Model.add_new_sample', 'model.Model.
          'model.Model.xpt', 'model.Model.as_absolute_coordinates', 'util.sumsq', 'util.remove_scaling']
 
 
-def harnesses(tier, seed):
+def model_harnesses(tier, seed):
     hs = []
     dims = [(1, 1, 3)] if tier == 'quick' else [(1, 1, 3), (2, 2, 3), (2, 1, 4)]
     for (n, m, num_pts) in dims:
@@ -214,6 +214,11 @@ def harnesses(tier, seed):
                                      "extended reals: NaN/+-inf exact, finite rounding and overflow not modelled",
                                      "regulariser family h(x) = lam*sum|x_i - c_i| (lam, c symbolic)"],
                         nproc=1, max_replays=3))
+    return hs
+
+
+def harnesses(tier, seed):
+    hs = model_harnesses(tier, seed)
     # the controller's own writers of the per-point arrays and of the saved slot (samples averaged over the rows actually filled,
     # budget ending at any sample): geometry step, soft restart, extra regression steps - one action from any valid state
     from .. import step
